@@ -73,6 +73,34 @@ pub fn noop_cx() -> std::task::Context<'static> {
     std::task::Context::from_waker(Waker::noop())
 }
 
+/// `Vec::insert` / `Vec::remove` at a SYMBOLIC index are symbolic-length memmoves, which CBMC encodes
+/// with array theory over the whole buffer (measured: a 1-element insert did not finish in 300 s, the
+/// case-split below takes 0.2 s). These stubs are semantically identical re-implementations with
+/// element-wise swaps at concrete indices under symbolic guards.
+pub fn vec_insert_stub<T, A: std::alloc::Allocator>(v: &mut Vec<T, A>, index: usize, element: T) {
+    let len = v.len();
+    assert!(index <= len, "insertion index out of bounds");
+    v.push(element);
+    let mut j = len;
+    while j > index {
+        v.swap(j, j - 1);
+        j -= 1;
+    }
+}
+pub fn vec_remove_stub<T, A: std::alloc::Allocator>(v: &mut Vec<T, A>, index: usize) -> T {
+    let len = v.len();
+    assert!(index < len, "removal index out of bounds");
+    let mut j = index;
+    while j + 1 < len {
+        v.swap(j, j + 1);
+        j += 1;
+    }
+    match v.pop() {
+        Some(t) => t,
+        None => unreachable!(),
+    }
+}
+
 #[macro_export]
 macro_rules! verif_proof {
     (unwind = $u:expr; $($item:tt)*) => {
